@@ -26,6 +26,8 @@ class Prop(BaseProp):
             # many unknown licenses in one expression (every one of them has to be named, in order)
             n = rng.choice([5, 9, 12, 13, 14, 17, 20, 33, 60])
             ks = ['u%d' % i for i in range(n)]
+            if rng.random() < 0.5:
+                ks += [k.upper() for k in ks[:rng.randint(1, 3)]]        # the same unknown key in another letter case is another key
             rng.shuffle(ks)
             keys = [k for k, _, _ in table]
             items = ks + [rng.choice(keys) for _ in range(rng.randint(0, 3)) if keys] + [rng.choice(ks) for _ in range(rng.randint(0, 3))]
@@ -33,7 +35,7 @@ class Prop(BaseProp):
             text = rng.choice([' and ', ' or ', ' AND ']).join(items)
         elif r < 0.55:
             keys = [k for k, _, _ in table] or ['mit']
-            t = gen.gen_tree(rng, keys + ['foo', 'zq bar'], depth=2, maxar=3, flags=False)
+            t = gen.gen_tree(rng, keys + ['foo', 'zq bar', 'Foo', 'FOO'], depth=2, maxar=3, flags=False)
             text = gen.tree_text(rng, t)
         else:
             text = gen.gen_text(rng, table, maxitems=7, bad=0.05)
